@@ -17,4 +17,8 @@ func runC17(c *Ctx) {
 	c.ruleLifecycleHelpers("W2b-acquired-engine-handed-on")
 	c.ruleFreeLists("W3-W4-free-lists")
 	c.Min("W3-W4-free-lists", 8)
+	// no pool lock is held while rules run: a request that keeps a pool lock for the length of its rules
+	// lets the others wait on that lock beside free instances (the pool then serves one request at a time)
+	c.ruleLifecycle("W5-no-pool-lock-while-rules-run", map[string]bool{"engine-call1-no-lock": true, "engine-call2-no-lock": true, "engine-call3-no-lock": true, "engine-call4-no-lock": true})
+	c.Min("W5-no-pool-lock-while-rules-run", 24)
 }
